@@ -72,7 +72,7 @@ CPLX_COEF = [[0.0, 1.0], [6.3, 3.1], [0.5, -2.0]]
 
 
 def budget(tier):
-    return {"examples": 3000 if tier == "quick" else 40000, "shards": 16, "shrink": 400 if tier == "quick" else 2000}
+    return {"examples": 9000 if tier == "quick" else 80000, "shards": 16, "shrink": 400 if tier == "quick" else 2000}
 
 
 # ---------------------------------------------------------------------------------------------------------------
